@@ -139,6 +139,16 @@ SEEDS = {
  "C21-m6": ("C21", "a source file longer than 8192 bytes (line assembled across a buffer refill is never cleared: later rules duplicated or lost)", ["C21"]),
  "C22-m5": ("C22", "a query of arity >= 8 (or nested 3 deep at arity 3) constructed before another query and run after it (8-entry work list in max_var_id underestimates the ids in use)", ["C22"]),
  "C22-m6": ("C22", "about 65 536 query epochs in one process, i.e. 22 000 to 65 535 earlier queries (epoch and stop request packed into 16 bits each)", ["C22"]),
+ "C01-m7": ("C01", "one predicate called twice with ground arguments in one search, first with 2.0 (fails) and then with 2 (cache of failed ground goals keyed by the printed form)", ["C01", "C03"]),
+ "C02-m7": ("C02", "a call, in the tail of a conjunction, to a predicate whose chosen clause cuts, and the caller backtracks into a goal to its left (tail node rewound instead of rebuilt, cut flag not cleared)", ["C02", "C01"]),
+ "C03-m7": ("C03", "not(L = R) with L and R bound to an integer and the float of the same value (negated unification decided by the == routine)", ["C03"]),
+ "C06-m7": ("C06", "a variable first aliased to a free variable and then bound as a list tail against a longer list (tail fast path overwrites the alias)", ["C06", "C08", "C01"]),
+ "C08-m7": ("C08", "two variables already aliased, then two lists unified tail to tail where the left tail is the unbound end of the chain (cycle $T -> $U -> $T)", ["C08", "C06"]),
+ "C16-m7": ("C16", "append of a list whose tail variable got its list through an alias, e.g. passed to a rule through a variable (tail looked up in one step)", ["C16", "C15"]),
+ "C19-m7": ("C19", "a complex term of 501..1000 characters whose atoms are not ASCII (the 1000-character limit measured in bytes)", ["C19", "C18"]),
+ "C21-m7": ("C21", "a comment delimiter inside parentheses (print format, quoted atom) and a trailing comment on the same line (search stops at the first delimiter)", ["C21"]),
+ "C21-m8": ("C21", "a term split over lines inside parentheses and a trailing comment on the line that closes it (bracket depth shared by two code paths, clamp at zero lost)", ["C21"]),
+ "C22-m7": ("C22", "two half-run queries stepped alternately A, B, A, B where B proves a rule with a body-only variable in a later goal (id counter restored to a value saved in an earlier call)", ["C22"]),
  "C03-m5": ("C03", "not nested three (or any odd number >= 3) deep ('redundant pairs' dropped one negation at a time)", ["C03"]),
  "C03-m6": ("C03", "a negated comparison of two different integers beyond 2^53 that round to the same f64 (fast path in the not node compares as f64)", ["C03"]),
  "C20-m5": ("C20", "an argument nested 3 deep in the same kind of bracket, e.g. f(g(h(a), b)) (one 'closer' slot instead of depth counters in parse_arguments)", ["C20", "C18", "C19"]),
